@@ -121,10 +121,12 @@ def apply (cache : List Str) (a : Actions) (ws : Ws) : Outcome :=
     let (ws4, errs) := a.filesCreate.foldl (createFile cache) (ws3, [])
     .ok (a.filesChmod.foldl chmodFile ws4) errs
 
+/-- the index entry `md5(build(ws))` records for a workspace node -/
+def nodeEntry : Node → Entry
+  | .dir => { mt := some { isdir := true }, hashInfo := none, loaded := some true }
+  | .file oid ex => { mt := some { isexec := ex }, hashInfo := some { name := some kMd5, value := some oid }, loaded := none }
+
 /-- the hashed index of a workspace (`md5(build(ws))`): an explicit entry for every node -/
-def indexOfWs (ws : Ws) : Index :=
-  ws.map fun e => match e.2 with
-    | .dir => (e.1, { mt := some { isdir := true }, hashInfo := none, loaded := some true })
-    | .file oid ex => (e.1, { mt := some { isexec := ex }, hashInfo := some { name := some kMd5, value := some oid }, loaded := none })
+def indexOfWs (ws : Ws) : Index := ws.map fun e => (e.1, nodeEntry e.2)
 
 end DvcData.IndexCheckout
